@@ -575,7 +575,13 @@ class Interp:
                 return d.call_external(f"{recv.name}.{e.func.attr}", args, kwargs, e)
             if isinstance(recv, ExtName):
                 return d.call_external(f"{recv.q}.{e.func.attr}", args, kwargs, e)
-            return d.method(recv, e.func.attr, args, kwargs, e)
+            out = d.method(recv, e.func.attr, args, kwargs, e)
+            if hasattr(d, "after_method") and isinstance(e.func.value, ast.Name):
+                # a mutating method changes what the receiver holds: let the domain give the variable its new abstract value
+                nv = d.after_method(recv, e.func.attr, args, kwargs, e)
+                if nv is not None:
+                    env.set(e.func.value.id, nv)
+            return out
         f = self.expr(e.func, env)
         if isinstance(f, FuncRef):
             summ = getattr(d, "repo_summaries", {}).get(f.name)
